@@ -243,7 +243,7 @@ func mergeReplay(args []string) error {
 		var cerr error
 		select {
 		case cerr = <-errC:
-		case <-time.After(20 * time.Second):
+		case <-time.After(60 * time.Second):
 			bad("hang/commit", nil, nil, "")
 			r.Recycle = true
 			return
